@@ -51,6 +51,27 @@ PROBES = [
      'void out_l(long);\ndouble d1 = 3000000000.0, d2 = 4294967295.0, d3 = 2147483648.0, d4 = 1.8e19, d5 = 9223372036854775808.0;\nfloat f1 = 3000000000.0f, f2 = 1.5e19f;\n'
      'int main(void)\n{\n\tout_l((unsigned)d1);\n\tout_l((unsigned)d2);\n\tout_l((unsigned)d3);\n\tout_l((unsigned)f1);\n\tout_l((unsigned long)d4 >> 1);\n\tout_l((unsigned long)d5 >> 1);\n'
      '\tout_l((unsigned long)f2 >> 1);\n\tout_l((unsigned)(d1 - d3));\n\treturn 0;\n}\n'),
+    ('logical-operator-value', 'the value of && and || is 0 or 1 whatever the operands are (bit masks, comparisons, _Bool, pointers, floats)',
+     'void out_l(long);\nint en = 1, perm = 6, z = 0;\ndouble d = 0.5;\nint *p = &en;\nint main(void)\n{\n\tint n = 0;\n\tn += en && (perm & 4);\n\tout_l(n);\n\tn += z || (perm | 8);\n\tout_l(n);\n'
+     '\tout_l(en && perm);\n\tout_l((perm & 2) && (perm & 4));\n\tout_l(z || (perm ^ 6));\n\tout_l(d && p);\n\tout_l((en && (perm & 4)) + (z || (perm & 2)) * 10);\n\tout_l(!(perm & 4) || (perm << 3));\n'
+     '\tout_l((_Bool)(perm & 4) && (perm > 5));\n\tout_l(3 * (en && (perm - 1)));\n\treturn 0;\n}\n'),
+    ('switch-insertion-orders', 'a switch reaches exactly the matching case whatever the order of its labels (every AVL rotation shape)',
+     'void out_l(long);\n' + ''.join(
+         'long sw%d(long v)\n{\n\tswitch (v) {\n%s\tdefault: return -1;\n\t}\n}\n' % (k, ''.join('\tcase %d: return %d;\n' % (c, c * 3 + k) for c in order))
+         for k, order in enumerate([[50, 20, 80, 10, 30, 25], [10, 20, 30, 40, 50, 60, 70], [70, 60, 50, 40, 30, 20, 10], [40, 20, 60, 10, 30, 50, 70, 25, 27, 26],
+                                    [5, 1, 9, 3, 7, 2, 4, 6, 8, 0, -5, -3, -4], [100, 50, 75, 60, 65, 62, 64, 63], [1, 100, 2, 99, 3, 98, 4, 97, 5, 96, 50, 51, 49]])) +
+     'int main(void)\n{\n\tlong v;\n\tfor (v = -8; v <= 102; v++) {\n\t\tout_l(sw0(v) + sw1(v) * 7 + sw2(v) * 11 + sw3(v) * 13);\n\t\tout_l(sw4(v) + sw5(v) * 7 + sw6(v) * 11);\n\t}\n\treturn 0;\n}\n'),
+    ('struct-array-members-by-value', 'structs with (multi-dimensional) array members are passed and returned by value intact',
+     'void out_l(long);\nstruct A { int m[2][3]; };\nstruct B { short cell[3][3]; char t; };\nstruct C { char c[2][2][2]; long l; };\n'
+     'struct A fa(struct A a, int k) { a.m[1][2] += k; a.m[0][0] -= k; return a; }\nlong fb(struct B b) { return b.cell[2][2] * 100 + b.cell[1][0] * 10 + b.t; }\n'
+     'struct C fc(struct C c) { c.c[1][1][1]++; c.l += c.c[0][1][0]; return c; }\n'
+     'int main(void)\n{\n\tstruct A a = { { { 1, 2, 3 }, { 4, 5, 6 } } }, r;\n\tstruct B b = { { { 1, 2, 3 }, { 4, 5, 6 }, { 7, 8, 9 } }, 5 };\n\tstruct C c = { { { { 1, 2 }, { 3, 4 } }, { { 5, 6 }, { 7, 8 } } }, 1000 }, q;\n'
+     '\tr = fa(a, 10);\n\tout_l(r.m[0][0]);\n\tout_l(r.m[0][2]);\n\tout_l(r.m[1][0]);\n\tout_l(r.m[1][2]);\n\tout_l(a.m[1][2]);\n\tout_l(fb(b));\n\tq = fc(c);\n\tout_l(q.c[1][1][1]);\n\tout_l(q.l);\n\tout_l(q.c[0][0][1]);\n\treturn 0;\n}\n'),
+    ('auto-init-brace-elision', 'automatic aggregates initialised with elided braces (struct containing a union, array of structs, nested arrays) hold the same values as with full braces',
+     'void out_l(long);\nstruct V { int kind; union { int i; unsigned char bytes[4]; } u; int line; };\nstruct W { int k; union { long l; char c; }; short tail; };\nstruct P { char a; int b[2]; };\n'
+     'int main(void)\n{\n\tint x = 2;\n\tstruct V v = { x, 0x01020304, 99 };\n\tstruct W w = { x + 1, 77, 5 };\n\tstruct P ps[2] = { 1, 2, 3, 4, 5, 6 };\n\tint g[2][3] = { 1, 2, 3, 4 };\n\tstruct V vs[2] = { 1, 2, 3, 4, 5, 6 };\n'
+     '\tout_l(v.kind);\n\tout_l(v.u.i);\n\tout_l(v.line);\n\tout_l(w.k);\n\tout_l(w.l);\n\tout_l(w.tail);\n\tout_l(ps[0].a + ps[0].b[1] * 10 + ps[1].a * 100 + ps[1].b[1] * 1000);\n'
+     '\tout_l(g[0][2] + g[1][0] * 10 + g[1][2] * 100);\n\tout_l(vs[0].line + vs[1].kind * 10 + vs[1].u.i * 100 + vs[1].line * 1000);\n\treturn 0;\n}\n'),
     (K_COPY_PACKED, 'assignment of a packed struct with an _Alignas member (size 5, alignment 4) copies 8 bytes: access beyond both objects',
      'void out_l(long);\nstruct __attribute__((packed)) P { _Alignas(4) int a; char b; };\nstruct P g1 = { 7, 8 }, g2;\n'
      'int main(void)\n{\n\tstruct P *p = &g2, *q = &g1;\n\t*p = *q;\n\tout_l(g2.a);\n\tout_l(g2.b);\n\treturn 0;\n}\n'),
